@@ -152,7 +152,7 @@ def validate_file(ctx, module, cfg_text, path, timeout=900, extra_env=None):
             summ = dict(lines=int(s.group(1)), bad=int(s.group(2)), unspec=int(s.group(3)), judged=int(s.group(4)))
     if summ is None or "No error has been found" not in out:
         raise Infra("trace validation of %s did not complete (rc=%s):\n%s" % (path, rc, tail(out)))
-    if summ["bad"] != len(mm):
+    if summ["bad"] != len(mm) and not (len(mm) == 60 and summ["bad"] > 60):   # NumTrace prints the first 60 only
         raise Infra("trace validation of %s: %d mismatches counted, %d parsed" % (path, summ["bad"], len(mm)))
     return dict(mismatches=mm, summary=summ, out=out)
 
